@@ -190,6 +190,10 @@ def judge_ms(case, level):
         Ydict = sut(gen.pre_multisetup, [d.copy() for d in datasets], [list(r) for r in refl])
         if not j.check(not raised(Ydict), "split-raises", lambda: f"{Ydict!r}"):
             return j
+        if case.get("extraN", 0) % 2:
+            # the same dictionaries written with the roving block first (key order carries no meaning)
+            Ydict = [dict(mov=d_["mov"], ref=d_["ref"]) if i_ % 2 == 0 else d_ for i_, d_ in enumerate(Ydict)]
+            j.tag("dict-keys-mov-first")
         out = sut(ssi.SSI_multi_setup, Ydict, S.fs, br, ordmax, method_hank=method)
         if raised(out) and out.type == "LinAlgError" and ordmax > n2:
             j.skip("singular-above-the-true-order")  # exact data have rank 2m: orders above it may be exactly singular
